@@ -40,10 +40,13 @@ package utils
 
 // monitor: how many byte buffers were handed back (whether or not the pool keeps them)
 //@ ghost global bufferReleases int
+// ... and which backing arrays went back with them
+//@ ghost global releasedBufs intset
 //@ func (*BufferPool).Put
 //@   property C20
-//@   modifies b.B, allof(type(BufferPool)), allelems(type(uint64)), allelems(type(callSize)), allelems(type(byte)), ghost.bufferReleases
+//@   modifies b.B, allof(type(BufferPool)), allelems(type(uint64)), allelems(type(callSize)), allelems(type(byte)), ghost.bufferReleases, ghost.releasedBufs
 //@   ghostset ghost.bufferReleases = old(ghost.bufferReleases) + 1
+//@   ghostset ghost.releasedBufs = store(old(ghost.releasedBufs), old(base(b.B)), true)
 
 // ---- C20: a recycled Args never exposes a stale slot ------------------------
 // Reset only truncates a.args; the argsKV slots beyond len keep the previous
